@@ -370,8 +370,16 @@ def get_value_by_dot(doc, key, can_generate_array=False):
             except ValueError as err:
                 if not can_generate_array:
                     raise KeyError(key_index) from err
+                # The values that the documents of the array have at the rest of the key.
                 remaining_key = '.'.join(key_items[key_index:])
-                return [get_value_by_dot(subdoc, remaining_key) for subdoc in result]
+                values = []
+                for subdoc in result:
+                    if isinstance(subdoc, dict):
+                        try:
+                            values.append(get_value_by_dot(subdoc, remaining_key, True))
+                        except KeyError:
+                            pass
+                return values
 
             try:
                 result = result[int_key]
